@@ -64,6 +64,46 @@ Proof.
   - apply teq_outlives; auto.
 Qed.
 
+(** What [teq] means: in every model of the table — an interpretation of the head constructors
+    and a valuation of the unknowns under which every bound unknown denotes its value, unknowns
+    of one class denote the same thing, and two lifetimes related in both directions by the goals
+    denote the same thing — [teq]-related terms have the same denotation. *)
+Section Model.
+  Variable D : Type.
+  Variable app : head -> list D -> D.
+  Variable bvar : sort -> N -> N -> D.
+  Variable cvar : N -> N -> D -> D.
+  Variable val : N -> D.
+
+  Fixpoint den (x : tm) : D :=
+    match x with
+    | Var s d i => bvar s d i
+    | CVar d i c => cvar d i (den c)
+    | Node h cs => match head_var h with Some v => val v | None => app h (map den cs) end
+    end.
+
+  Variable t : table.
+  Variable gs : list tm.
+  Hypothesis Hbound : forall v x, bound_to t v x -> val v = den x.
+  Hypothesis Hclass : forall v w, same_class t v w -> val v = val w.
+  Hypothesis Hgoals : forall a b, kind_of a = KLt -> kind_of b = KLt ->
+    In (outlives_goal a b) gs -> In (outlives_goal b a) gs -> den a = den b.
+
+  Lemma teq_model : forall a b, teq t gs a b -> den a = den b.
+  Proof.
+    fix IH 3. intros a b H. destruct H as [a | a b H | a b c H1 H2 | h cs cs' H | h cs v x Hv Hb | h cs h' cs' v w Hv Hw Hc | a b Ka Kb I1 I2].
+    - reflexivity.
+    - symmetry. apply IH. exact H.
+    - etransitivity; apply IH; eassumption.
+    - cbn [den]. destruct (head_var h); [reflexivity |]. f_equal.
+      revert cs cs' H. fix IH2 3. intros cs cs' H. destruct H as [| x y r r' Hxy Hr]; cbn [map]; [reflexivity |].
+      f_equal; [apply IH; exact Hxy | apply IH2; exact Hr].
+    - cbn [den]. rewrite Hv. apply Hbound. exact Hb.
+    - cbn [den]. rewrite Hv, Hw. apply Hclass. exact Hc.
+    - apply Hgoals; assumption.
+  Qed.
+End Model.
+
 Lemma Forall2_impl' {A B} (P Q : A -> B -> Prop) l l' : (forall a b, P a b -> Q a b) -> Forall2 P l l' -> Forall2 Q l l'.
 Proof. intros H. induction 1; constructor; auto. Qed.
 
